@@ -4,7 +4,8 @@
    level_of lkey dedup j stream = content of level file j for a merged stream;
    ge_sc score a b = score a >= score b. *)
 From Coq Require Import Permutation Sorted.
-From Mokaverif Require Import Model.Base Model.Tdc Model.Confidence Proofs.TdcP Proofs.ConfidenceP.
+From Mokaverif Require Import Model.Base Model.Tdc Model.Merge Model.Confidence Model.Rollup.
+From Mokaverif Require Import Proofs.TdcP Proofs.MergeP Proofs.ConfidenceP Proofs.RollupP.
 Open Scope Z_scope.
 
 (* the level loop: first seen wins at every level; a PSM dropped at PSM level is dropped everywhere *)
@@ -77,3 +78,180 @@ Proof. vm_compute. repeat split; repeat constructor; simpl; intuition discrimina
 Example C03_chunk_dedup_flag_matters :
   map (map cf_id) (cf_levels cf_row cf_score cf_lkey 100 true false 2 ex_rows) = [[2;4;3]; [2]].
 Proof. vm_compute. reflexivity. Qed.
+
+(* ====================== the stand-alone rollup tool (mokapot.brew_rollup) ======================
+   Proofs in Proofs/RollupP.v.  Vocabulary:
+   ru_readers root tf df = the inputs of the merger: the rows of every selected targets file tagged
+     target, then those of every selected decoys file tagged decoy (files whose name starts with
+     the output root are not selected); pool = concat of them = ALL input rows of ALL files;
+   ru_cols raw = renamed column names + is_decoy; ru_key cols level r = r's cell in column `level`;
+   ru_temp = (level, rows of <root>.temp.<level>s) per level; ru_rollup = (level, (rows + q-values of
+     <root>.targets.<level>s, of <root>.decoys.<level>s)) per level;
+   ru_desc parents base x = x descends from base through the child -> parent table. *)
+
+(* the scan loop (one `seen` set per level, no break) computes first-seen-wins for every level *)
+Theorem C03_rollup_scan : forall (row : Type) (keys : list (row -> Z)) (stream : list row),
+  ru_scan keys stream = map (fun k => fs k stream) keys.
+Proof. exact ru_scan_spec. Qed.
+Print Assumptions C03_rollup_scan.
+
+(* (a) a run that succeeds: every input was sorted, the merged stream is a descending permutation of
+   all input rows, the levels are the closure of the base level restricted to the column names, and
+   every level's temp file is the first-seen-per-key subsequence of the merged stream *)
+Theorem C03_rollup_structure : forall hp ht root base raw_cols tfiles dfiles temp,
+  ru_temp hp ht root base raw_cols tfiles dfiles = Ok temp ->
+  exists stream levels,
+    mg_merge_checked cf_score true (ru_readers root tfiles dfiles) = Ok stream /\
+    ru_levels base (ru_cols raw_cols) = Ok levels /\
+    Forall (StronglySorted (ge_sc cf_score)) (ru_readers root tfiles dfiles) /\
+    Permutation stream (concat (ru_readers root tfiles dfiles)) /\
+    StronglySorted (ge_sc cf_score) stream /\
+    temp = map (fun l => (l, fs (ru_key (ru_cols raw_cols) l) stream)) levels.
+Proof. exact rollup_structure. Qed.
+Print Assumptions C03_rollup_structure.
+
+(* hence per level: descending score order; one row per entity; every entity of the pool is present;
+   every row is a best row of its entity over ALL input rows of ALL files (ties included); with
+   pairwise distinct scores the level is EXACTLY the set of best rows *)
+Theorem C03_rollup_best : forall hp ht root base raw_cols tfiles dfiles temp,
+  ru_temp hp ht root base raw_cols tfiles dfiles = Ok temp ->
+  forall level lvl, In (level, lvl) temp ->
+    let key := ru_key (ru_cols raw_cols) level in
+    let pool := concat (ru_readers root tfiles dfiles) in
+    StronglySorted (ge_sc cf_score) lvl /\
+    NoDup (map key lvl) /\
+    (forall z, In z (map key lvl) <-> In z (map key pool)) /\
+    (forall r, In r lvl -> is_best cf_score key pool r) /\
+    (NoDup (map cf_score pool) -> forall r, In r lvl <-> is_best cf_score key pool r).
+Proof. exact rollup_best. Qed.
+Print Assumptions C03_rollup_best.
+
+(* (b) "the same rule": the temp files are the level files 1, 2, ... that the level loop of
+   assign_confidence (cf_levels_run, de-duplication off, level i+1 keyed by the i-th rollup level)
+   writes for the same merged stream *)
+Theorem C03_rollup_same_loop : forall hp ht root base raw_cols tfiles dfiles temp,
+  ru_temp hp ht root base raw_cols tfiles dfiles = Ok temp ->
+  exists stream, mg_merge_checked cf_score true (ru_readers root tfiles dfiles) = Ok stream /\
+    let levels := map fst temp in
+    map snd temp = tl (cf_levels_run cf_row (ru_lkey (ru_cols raw_cols) levels) false (S (length levels)) stream).
+Proof. exact rollup_same_loop. Qed.
+Print Assumptions C03_rollup_same_loop.
+
+(* ... and with pairwise distinct scores they are the level files 1, 2, ... of assign_confidence's
+   whole row pipeline (chunk, sort, merge, level loop; any chunk size; de-duplication off) run on the
+   pooled rows of all input files as one collection *)
+Theorem C03_rollup_same_rule : forall hp ht root base raw_cols tfiles dfiles temp c,
+  ru_temp hp ht root base raw_cols tfiles dfiles = Ok temp ->
+  (1 <= c)%nat -> NoDup (map cf_score (concat (ru_readers root tfiles dfiles))) ->
+  let levels := map fst temp in
+  map snd temp
+  = tl (cf_levels cf_row cf_score (ru_lkey (ru_cols raw_cols) levels) c false false (S (length levels))
+                  (concat (ru_readers root tfiles dfiles))).
+Proof. exact rollup_same_rule. Qed.
+Print Assumptions C03_rollup_same_rule.
+
+(* (c) an input file that is not in descending score order: ValueError, no result *)
+Theorem C03_rollup_rejects_unsorted : forall hp ht root base raw_cols tfiles dfiles,
+  ru_precheck hp ht root raw_cols tfiles dfiles = None ->
+  Forall (fun l => l <> []) (ru_readers root tfiles dfiles) ->
+  Exists (fun l => ~ StronglySorted (ge_sc cf_score) l) (ru_readers root tfiles dfiles) ->
+  ru_temp hp ht root base raw_cols tfiles dfiles = Err EValue /\
+  ru_rollup hp ht root base raw_cols tfiles dfiles = Err EValue.
+Proof. exact rollup_rejects_unsorted. Qed.
+Print Assumptions C03_rollup_rejects_unsorted.
+
+(* the other failures: text and Parquet inputs together (RuntimeError); no input file, differing
+   schemas, no score column (AssertionError); an input file without rows (RuntimeError); the model's
+   fuel never runs out *)
+Theorem C03_rollup_malformed : forall hp ht root base raw_cols tfiles dfiles,
+  (hp && ht = true -> ru_rollup hp ht root base raw_cols tfiles dfiles = Err ERuntime) /\
+  (hp && ht = false -> ru_readers root tfiles dfiles = [] ->
+   ru_rollup hp ht root base raw_cols tfiles dfiles = Err EAssertion) /\
+  (ru_precheck hp ht root raw_cols tfiles dfiles = None ->
+   Exists (fun l => l = []) (ru_readers root tfiles dfiles) ->
+   ru_rollup hp ht root base raw_cols tfiles dfiles = Err ERuntime) /\
+  (forall e, ru_precheck hp ht root raw_cols tfiles dfiles = Some e ->
+   ru_rollup hp ht root base raw_cols tfiles dfiles = Err e) /\
+  ru_rollup hp ht root base raw_cols tfiles dfiles <> Err EFuel.
+Proof. exact rollup_malformed. Qed.
+Print Assumptions C03_rollup_malformed.
+
+(* (d) the result files: targets and decoys of the temp file split by the flag, the q-value column is
+   the C01 formula on exactly the rows of the temp file, and every row is a row of a selected input
+   file, unmodified except for the flag, which is the kind of file it came from *)
+Theorem C03_rollup_outputs : forall hp ht root base raw_cols tfiles dfiles out,
+  ru_rollup hp ht root base raw_cols tfiles dfiles = Ok out ->
+  exists temp, ru_temp hp ht root base raw_cols tfiles dfiles = Ok temp /\
+    out = map (fun lt => (fst lt,
+                 (filter (fun p => cf_target (fst p)) (combine (snd lt) (cf_qvalues (snd lt))),
+                  filter (fun p => negb (cf_target (fst p))) (combine (snd lt) (cf_qvalues (snd lt)))))) temp /\
+    forall level lvl, In (level, lvl) temp ->
+      length (cf_qvalues lvl) = length lvl /\
+      (forall i, (i < length lvl)%nat ->
+         is_qvalue true (combine (map cf_score lvl) (map cf_target lvl))
+                   (cf_score (nth i lvl (Build_cf_row 0 0 [] false 0))) (nth i (cf_qvalues lvl) 1%Q)) /\
+      (forall r, In r lvl ->
+         exists f r0, In r0 (ru_frows f) /\ r = ru_tag (cf_target r) r0 /\
+           negb (prefixb (root ++ ru_s_dot) (ru_fname f)) = true /\
+           (if cf_target r then In f tfiles else In f dfiles)).
+Proof. exact rollup_outputs. Qed.
+Print Assumptions C03_rollup_outputs.
+
+(* (e) compute_rollup_levels: total (the fuel suffices), starts with the base level, no repetition,
+   exactly the descendants of the base level, closed under the table *)
+Theorem C03_rollup_levels : forall (parents : list (str * str)) (base : str),
+  exists lv, ru_compute_levels parents base = Ok lv /\
+    hd_error lv = Some base /\ NoDup lv /\
+    (forall x, In x lv <-> ru_desc parents base x) /\
+    (forall c p, In (c, p) parents -> In p lv -> In c lv).
+Proof. exact ru_levels_closure. Qed.
+Print Assumptions C03_rollup_levels.
+
+(* the key of a level that is rolled up to is a cell of the row (no default leaks) *)
+Theorem C03_rollup_key_total : forall base raw_cols levels level r d,
+  ru_levels base (ru_cols raw_cols) = Ok levels -> In level levels ->
+  length (cf_keys r) = length raw_cols -> level <> ru_s_is_decoy ->
+  exists i, index_str level (ru_cols raw_cols) = Some i /\ (i < length (cf_keys r))%nat /\
+            ru_key (ru_cols raw_cols) level r = nth i (cf_keys r) d.
+Proof. exact ru_key_default_irrelevant. Qed.
+Print Assumptions C03_rollup_key_total.
+
+(* non-vacuity: two collections a, b; columns PSMId, peptide, Precursor, score; a stale result file
+   "r.x" of an earlier run (root "r") among the decoy files is skipped *)
+Definition rr id pep prec sc :=
+  {| cf_id := id; cf_spec := 0; cf_keys := [id; pep; prec; sc]; cf_target := false; cf_score := sc |}.
+Definition ex_cols := [ru_s_PSMId; ru_s_peptide; ru_s_Precursor; ru_s_score].
+Definition ex_tf : list ru_file :=
+  [([97], (1, [rr 0 10 20 90; rr 1 11 20 70; rr 2 10 21 50])); ([98], (1, [rr 3 11 22 80; rr 4 12 22 60]))].
+Definition ex_df : list ru_file :=
+  [([97], (1, [rr 5 10 23 85; rr 6 13 23 40])); ([114; 46; 120], (1, [rr 7 14 24 100]))].
+Example C03_rollup_example :
+  (match ru_rollup false true [114] ru_s_psm ex_cols ex_tf ex_df with
+   | Ok out => map (fun o => (fst o, (map (fun p => cf_id (fst p)) (fst (snd o)), map (fun p => cf_id (fst p)) (snd (snd o))))) out
+   | Err _ => [] end)
+  = [(ru_s_precursor, ([0; 3; 2], [5])); (ru_s_peptide, ([0; 3; 4], [6]))] /\
+  NoDup (map cf_score (concat (ru_readers [114] ex_tf ex_df))) /\
+  ru_precheck false true [114] ex_cols ex_tf ex_df = None.
+Proof. vm_compute. repeat split; repeat constructor; simpl; intuition discriminate. Qed.
+(* an unsorted decoys file: ValueError; the hypotheses of C03_rollup_rejects_unsorted hold *)
+Definition ex_df_bad : list ru_file := [([97], (1, [rr 6 13 23 40; rr 5 10 23 85]))].
+Example C03_rollup_unsorted_example :
+  ru_rollup false true [114] ru_s_psm ex_cols ex_tf ex_df_bad = Err EValue /\
+  ru_precheck false true [114] ex_cols ex_tf ex_df_bad = None /\
+  Forall (fun l => l <> []) (ru_readers [114] ex_tf ex_df_bad) /\
+  Exists (fun l => ~ StronglySorted (ge_sc cf_score) l) (ru_readers [114] ex_tf ex_df_bad).
+Proof.
+  split; [vm_compute; reflexivity|]. split; [vm_compute; reflexivity|]. split.
+  - repeat constructor; discriminate.
+  - apply Exists_cons_tl, Exists_cons_tl, Exists_cons_hd. intros H.
+    apply StronglySorted_inv in H. destruct H as [_ H]. apply Forall_inv in H. vm_compute in H. apply H. reflexivity.
+Qed.
+(* the default table: every level in one sweep; a table listed child-before-parent needs several *)
+Example C03_rollup_levels_example :
+  ru_compute_levels ru_default_parents ru_s_psm
+    = Ok [ru_s_psm; ru_s_precursor; ru_s_modified_peptide; ru_s_peptide; ru_s_peptide_group] /\
+  ru_compute_levels ru_default_parents ru_s_precursor
+    = Ok [ru_s_precursor; ru_s_modified_peptide; ru_s_peptide; ru_s_peptide_group] /\
+  ru_compute_levels ru_default_parents ru_s_peptide = Ok [ru_s_peptide] /\
+  ru_compute_levels [([3], [2]); ([2], [1]); ([4], [9])] [1] = Ok [[1]; [2]; [3]].
+Proof. vm_compute. repeat split. Qed.
